@@ -10,14 +10,14 @@
 (*   {"ev":"post","stamps":[..]}               the kernel posted these completions           *)
 (*   {"ev":"reap","ret":slot|-1|-2|-3}         get_next_cqe                                  *)
 (*   {"ev":"read","val":s}                     content read through the returned reference   *)
-(* One TLC state per event; the first inadmissible observation of each run is collected in   *)
-(* `bad` and printed at the end.                                                             *)
+(* One TLC state per event; the first inadmissible observation of each run is               *)
+(* printed at once (RINGBAD), a summary at the end (RINGJUDGE).                              *)
 EXTENDS Integers, Sequences, TLC, Json, IOUtils
 A == INSTANCE RingAbs
 Rec == ndJsonDeserialize(IOEnv.TRACE)
 
-VARIABLES i, a, run, bad
-vars == <<i, a, run, bad>>
+VARIABLES i, a, run, nbad
+vars == <<i, a, run, nbad>>
 
 Step(e) ==
     CASE e.ev = "reset"   -> A!AbsInit(e.ns, e.nc)
@@ -30,19 +30,22 @@ Step(e) ==
       [] e.ev = "read"    -> A!ARead(a, e.val)
       [] OTHER            -> a
 
-Init == /\ i = 1 /\ a = A!AbsInit(1, 1) /\ run = 0 /\ bad = <<>>
+Init == /\ i = 1 /\ a = A!AbsInit(1, 1) /\ run = 0 /\ nbad = 0
 
 Next ==
     \/ /\ i <= Len(Rec)
        /\ LET e == Rec[i]
-              a2 == Step(e) IN
+              a2 == Step(e)
+              stale == e.ev = "read" /\ a2.stale /\ ~a.stale
+              rejected == a2.why # "" /\ (a.why = "" \/ e.ev = "reset") IN
           /\ a' = a2
           /\ run' = IF e.ev = "reset" THEN e.run ELSE run
-          /\ bad' = IF a2.why # "" /\ (a.why = "" \/ e.ev = "reset")
-                    THEN Append(bad, [run |-> run, line |-> i, why |-> a2.why]) ELSE bad
+          /\ rejected => PrintT(<<"RINGBAD", ToJson([run |-> run, line |-> i, why |-> a2.why])>>)
+          /\ stale => PrintT(<<"RINGBAD", ToJson([run |-> run, line |-> i, why |-> "content_overwritten_between_return_and_read"])>>)
+          /\ nbad' = nbad + (IF rejected THEN 1 ELSE 0) + (IF stale THEN 1 ELSE 0)
        /\ i' = i + 1
     \/ /\ i = Len(Rec) + 1
-       /\ PrintT(<<"RINGJUDGE", ToJson([n |-> Len(Rec), bad |-> bad])>>)
+       /\ PrintT(<<"RINGJUDGE", ToJson([n |-> Len(Rec), nbad |-> nbad])>>)
        /\ i' = i + 1
-       /\ UNCHANGED <<a, run, bad>>
+       /\ UNCHANGED <<a, run, nbad>>
 =============================================================================
